@@ -389,7 +389,18 @@ pub fn run(ctx: &Ctx) {
     );
 
     // every variant as the source of every extraction + scalar round trips
-    let pool = crate::pool::boundary();
+    let mut pool = crate::pool::boundary();
+    // strings that spell a value of another kind (a String stays the wrong kind for every other extraction), and
+    // collections of many sizes (the error carries the whole offending value)
+    for t in ["2015-07-30T03:26:13Z", "2015-07-30T03:26:13+02:00", "1", "-1", "1.5", "true", "none", "PT1S", "[i1]", "{}", "", "i1", "d1.5"] {
+        pool.push(Value::String(t.to_string()));
+    }
+    for n in [1usize, 31, 32, 33, 64, 65, 255, 256, 257, 1000] {
+        pool.push(Value::Vec((0..n as i128).map(Value::Int).collect()));
+        pool.push(Value::Vec((0..n).map(|i| Value::String(format!("s{i}"))).collect()));
+        pool.push(Value::Map((0..n).map(|i| (format!("k{i:04}"), Value::Int(i as i128))).collect()));
+        pool.push(Value::Vec(vec![Value::Vec((0..n as i128).map(Value::Int).collect()), Value::Bool(true)]));
+    }
     ctx.enumerate(
         "every-variant-every-extraction",
         pool.len() as u64,
